@@ -127,7 +127,7 @@ theorem InvM.wigmDefeatStep1 (hA : LawfulArith A) (o : WigmOpts) (hz : o.batchZe
   cases hm : minVoteOf A s.hopeful with
   | none => exact h.2
   | some lv =>
-    simp only [hz, Bool.and_false, Bool.false_eq_true, if_false]
+    simp only [hz, Bool.and_false, Bool.false_and, Bool.false_eq_true, if_false]
     have hM1 := h.2.breakTie A (s.hopeful.filter (fun c => A.eq c.vote lv)) "Break tie (defeat)"
     have hI1 := h.1.breakTie A (s.hopeful.filter (fun c => A.eq c.vote lv)) "Break tie (defeat)"
     have hfr := breakTie_frame A s (s.hopeful.filter (fun c => A.eq c.vote lv)) "Break tie (defeat)"
